@@ -277,6 +277,7 @@ def stageNoSleep (key : String) : Option (Footprint Grp) :=
       K := [qpos, qvel, act, time, history, qacc_warmstart, plugin_state] }
   -- reset: everything but the allocation constants becomes a function of the model
   | "mj_resetData" => some
+    -- (mj_resetData also formats the accumulated timers into a log message before clearing them: no effect on mjData)
     { R := mem
       W := stateGroups ++ derivedGroups ++ [diag, stack]
       K := stateGroups ++ derivedGroups ++ [diag, stack] }
